@@ -51,6 +51,17 @@ CLAIMS = {
              "script without them; its accept/reject pattern and the number of active assertions per check must match the "
              "machine. Partial: declarations, define-fun and option commands are not among the inserted commands.",
         design_ref="5 C19"),
+    "C28": dict(
+        technique="Lean 4 proof (hash-consed store: interning is idempotent, identities are stable and injective, arguments are older, commutative symbols order-insensitive) tied by differential construction sequences through the Logic API",
+        text="Theorems over every store reachable from the empty one and every node: building a node twice returns the same "
+             "identity and leaves the store unchanged, earlier identities keep their nodes, different identities hold different "
+             "nodes, every argument is older than its term, permuting the arguments of a commutative symbol gives the same "
+             "result. Tie: random sequences of 20-80 constructions (constants, uninterpreted applications of arity 1-3, a predicate, "
+             "equalities, conjunctions and disjunctions, with repetitions and permuted repetitions) are executed through Logic's "
+             "constructors in a harness linked against the current tree and through the model; which results coincide with which "
+             "earlier ones must agree, children must have smaller identities and new terms increasing Pterm ids. Partial: "
+             "constructors that simplify their arguments and arithmetic normalisation are C14's subject, not modelled here.",
+        design_ref="5 C28"),
     "C29": dict(
         technique="Lean 4 proof (checker soundness independent of the declared logic: accepted unsat traces refute the roots, validated models satisfy the assertions) tied by certification of every answer on out-of-logic scripts",
         text="Theorems: C29_unsat_certified (Smt.unsat_sound, stated over the SMT-LIB semantics of every readable term, Int symbols "
